@@ -497,7 +497,14 @@ class Interp:
                     v = self.call_local(cc[0], cargs, None)
                 finally:
                     self._in_ctor_closed = False
-                if len(self.tops) == n_t and len(self.guards) == n_g and isinstance(v, StructV): return v
+                if len(self.tops) == n_t and isinstance(v, StructV) and not self.st.dead:
+                    # what the constructor refuses cannot be the arguments of an existing value: its refusals are facts here
+                    for g_ in self.guards[n_g:]:
+                        if is_term(g_['cond']):
+                            self.st.facts.append((g_['cond'], None)); sym.refine(g_['cond'], self.st.ranges)
+                    del self.guards[n_g:]
+                    self.log[:] = [ev for ev in self.log if not (ev[0] == 'guard' and any(ev[1] is g_['cond'] or ev[1] == g_['cond'] for g_ in ()))]
+                    return v
                 del self.tops[n_t:]; del self.guards[n_g:]
             if adt['kind'] == 'Struct':
                 fields = {}
